@@ -1,20 +1,23 @@
 """C06 -- the result does not depend on the field-lookup strategy.  Same cases as C05 (harness/drivers/c05.py): every
 declaration / options / input is parsed under data_first_search=True and False (and, on failure, once more per strategy
 with collect_errors to obtain the full set of error kinds); TLC judges DataParse!SameOutcome on every pair."""
-from .c05 import main_common, finish_notes, features, RULE, TRUSTED, ASSUME, replay  # noqa
+from .c05 import main_common, finish_notes, features, universe, RULE, TRUSTED, ASSUME, replay  # noqa
 
 
 def main():
     ck, r, byid = main_common("C06")
-    for t in r.tagged("VIOL"):
-        rec = byid[t[1]]
-        feats = features(rec)
-        if rec["o"]["ignore_conflicts"] and "dup-differ" in feats:
-            key_ = "C06|%s|ignore_alias_conflicts-which-value-wins" % t[2]
-        else:
-            key_ = "C06|%s|%s|%s" % (t[2], feats, ",".join(sorted(set(rec["otag"].split(",")) - {"default"})) or "default")
-        ck.violation(key_, t[2], rec)
+    ru, byu = universe(ck, "C06")
+    for res, ids in ((r, byid), (ru, byu)):
+        for t in res.tagged("VIOL"):
+            rec = ids[t[1]]
+            feats = features(rec)
+            if rec["o"]["ignore_conflicts"] and "dup-differ" in feats:
+                key_ = "C06|%s|ignore_alias_conflicts-which-value-wins" % t[2]
+            else:
+                key_ = "C06|%s|%s|%s" % (t[2], feats, ",".join(sorted(set(rec["otag"].split(",")) - {"default"})) or "default")
+            ck.violation(key_, t[2], rec)
     finish_notes(ck, r, byid)
+    finish_notes(ck, ru, byu)
     ck.rule = RULE + "; the two strategies are compared on every case"
     ck.trusted = TRUSTED
     ck.assumptions = ASSUME + ["two failures agree when one strategy's error kind belongs to the kinds the other one collects"]
